@@ -76,6 +76,12 @@ func c02Top(s *EnumSpec, v []int) string {
 }
 
 func c02Eval(v []int) (string, string, bool) {
+	w := StartRelayWorld(SimOpts{}, c02Cfg)
+	defer w.Close()
+	return c02EvalIn(w, v, 0)
+}
+
+func c02EvalIn(w *RelayWorld, v []int, seq int) (string, string, bool) {
 	s := c02Spec
 	entries := []string{c02Top(s, v)}
 	if sec := c02Second(s, v); sec != "" {
@@ -109,8 +115,13 @@ func c02Eval(v []int) (string, string, bool) {
 			k++
 		}
 	}
-	w := StartRelayWorld(SimOpts{}, c02Cfg)
-	defer w.Close()
+	if seq > 0 {
+		for i := range m.Hdrs {
+			if m.Hdrs[i].Name == "Call-ID" {
+				m.Hdrs[i].Value = fmt.Sprintf("c02-%d", seq)
+			}
+		}
+	}
 	w.Observe()
 	if s.Val(v, "arrival") == "tcp" {
 		w.SendTCP(w.Client("b", "127.0.1.2", "127.0.0.1:5062"), m.Render())
@@ -191,6 +202,27 @@ func c02Eval(v []int) (string, string, bool) {
 		return "remaining-via-altered", desc(exp) + fmt.Sprintf("\nrelayed Via entries %q", viaStrs(got)), true
 	}
 	return "", "", true
+}
+
+type c02Aged struct {
+	w *RelayWorld
+	n int
+}
+
+func c02AgedSpec() *AgedSpec {
+	s := c02Spec
+	return &AgedSpec{Spec: s,
+		Group: func(v []int) string {
+			return fmt.Sprintf("top=%s,arrival=%s,names=%s,rest=%s", s.Val(v, "top"), s.Val(v, "arrival"), s.Val(v, "names"), s.Val(v, "rest"))
+		},
+		Open:  func(v []int) any { return &c02Aged{w: StartRelayWorld(SimOpts{}, c02Cfg)} },
+		Close: func(w any) { w.(*c02Aged).w.Close() },
+		Eval: func(w any, v []int) (string, string) {
+			a := w.(*c02Aged)
+			a.n++
+			cl, d, _ := c02EvalIn(a.w, v, a.n)
+			return cl, d
+		}}
 }
 
 // ---- history part: concurrent transactions through two backends ----
@@ -468,16 +500,20 @@ func init() {
 		return true
 	}
 	addCheck(&Check{ID: "C02", Level: "model_checking",
-		Rule:   "(inputs) complete product: routing entry (transport x host literal/host-table name x port x received x rport {absent, valueless, numeric, non-numeric} x extra parameters, plus 6 undecodable / missing shapes) x top entry x 0-4 further entries x EVERY layout (all compositions into header lines, full/compact/mixed/upper-case names) x status class x arrival transport, each on a fresh world; (histories) explicit-state BFS by replay over three concurrent transactions (UDP and TCP user agents, UDP and TCP backends): events {request t, backend answers t with 180 / 200 (repeatable)} in every order to depth 6 (thorough 8), received-support on/off; non-trivial = a Via entry remains after the pop / history longer than one event",
+		Rule:   "(inputs) complete product: routing entry (transport x host literal/host-table name x port x received x rport {absent, valueless, numeric, non-numeric} x extra parameters, plus 6 undecodable / missing shapes) x top entry x 0-4 further entries x EVERY layout (all compositions into header lines, full/compact/mixed/upper-case names) x status class x arrival transport, each on a fresh world, and a second pass feeding all cases of one class into ONE long-lived world; (histories) explicit-state BFS by replay over three concurrent transactions (UDP and TCP user agents, UDP and TCP backends): events {request t, backend answers t with 180 / 200 (repeatable)} in every order to depth 6 (thorough 8), received-support on/off; non-trivial = a Via entry remains after the pop / history longer than one event",
 		Assume: []string{"sent-by hosts are IPv4 literals or host-table names (stated domain); undecodable shapes only in the two entries the proxy must consult"},
 		Run: func(c *Ctx) {
 			c02Spec.Run(c)
+			c02AgedSpec().Run(c)
 			c02RunHist(c)
 		},
 		Replay: func(c *Ctx, raw json.RawMessage) string {
 			var h c02Hist
 			if err := json.Unmarshal(raw, &h); err == nil && len(h.Hist) > 0 {
 				_, cl, _ := c02HistExec(h.Received, h.Hist)
+				return cl
+			}
+			if cl, ok := c02AgedSpec().Replay(raw); ok {
 				return cl
 			}
 			return c02Spec.Replay(raw)
